@@ -3,6 +3,7 @@ package checks
 import (
 	"bytes"
 	"context"
+	"errors"
 	"fmt"
 	"os"
 	"os/exec"
@@ -120,12 +121,21 @@ func c03Env(tools bool) []string {
 // c03RunBash runs text as a script file with bash in a fresh directory of the
 // slot. Standard input is empty, standard error is kept for reports only.
 func c03RunBash(text, slot string, tools bool) c03Res {
+	r := c03RunBashT(text, slot, tools, 20*time.Second)
+	if r.Flag == "timeout" {
+		// an overloaded machine, or a real hang: decide with a long limit
+		r = c03RunBashT(text, slot, tools, 120*time.Second)
+	}
+	return r
+}
+
+func c03RunBashT(text, slot string, tools bool, limit time.Duration) c03Res {
 	dir := c03Fresh(slot)
 	script := filepath.Join(slot, "s.sh")
 	if err := os.WriteFile(script, []byte(text), 0o644); err != nil {
 		return c03Res{Flag: "harness: " + err.Error()}
 	}
-	ctx, cancel := context.WithTimeout(context.Background(), 20*time.Second)
+	ctx, cancel := context.WithTimeout(context.Background(), limit)
 	defer cancel()
 	cmd := exec.CommandContext(ctx, "/bin/bash", "--norc", "--noprofile", "../s.sh")
 	cmd.Env = c03Env(tools)
@@ -147,6 +157,12 @@ func c03RunBash(text, slot string, tools bool) c03Res {
 	}
 	if ee, ok := err.(*exec.ExitError); ok {
 		res.Status = ee.ExitCode()
+		return res
+	}
+	if errors.Is(err, exec.ErrWaitDelay) && cmd.ProcessState != nil {
+		// bash itself has exited; a stray child (e.g. a process substitution
+		// nobody reads) still held our pipes and has been killed
+		res.Status = cmd.ProcessState.ExitCode()
 		return res
 	}
 	if err != nil {
